@@ -39,6 +39,10 @@ def check_verdict(c, r, s, G, hl, key, allow=False):
 
 
 def generate(rng, tier, seed):
+    from props.tr31util import boundary_cases
+    for ver in "BD":
+        for c, *_ in boundary_cases(rng, ver, tier):
+            yield c
     full = tier == "thorough"
     for ver, (bs, ksizes, ml) in VERS.items():
         for ksize in ksizes:
@@ -119,6 +123,18 @@ def generate(rng, tier, seed):
                         c = Case(f"{ver}:whitespace-in-binary", {})
                         check_verdict(c, unwrap_case(c, kbpk, s), s, G, hl, key)
                         yield c
+                # runs of whitespace (a whole number of cipher blocks of text, and other widths) inserted into the key data or the MAC at
+                # even and odd offsets, with the length field left stale and fixed up: the decoded bytes are unchanged, the string is not
+                xl = n - 2 * ml - hl
+                for ws in (" ", "\n"):
+                    for off in sorted({hl, hl + 1, hl + 2, hl + xl // 2 - (xl // 2) % 2, n - 2 * ml - 2, n - 2 * ml, n - 2 * ml + 2, n - 2, n}):
+                        for w in (bs, 2 * bs, 4 * bs, 2, 1):
+                            for fix in (False, True):
+                                s = G[:off] + ws * w + G[off:]
+                                s = fixlen(s) if fix else s
+                                c = Case(f"{ver}:whitespace-run-inserted", {"width": w, "fix": fix})
+                                check_verdict(c, unwrap_case(c, kbpk, s), s, G, hl, key)
+                                yield c
                 # random multi-edits
                 for _ in range(6 if not full else 30):
                     s = list(G)
